@@ -107,7 +107,25 @@ func noMatch(err error) bool { return err != nil && err.Error() == storedefs.Err
 
 // Exec runs one operation on a real store and records what it returned.
 // An error other than "no matching command" is returned as err (machinery or real failure: caller decides).
-func Exec(st storedefs.Store, o Op) (Event, error) {
+func Exec(st storedefs.Store, o Op) (ev Event, err error) {
+	// a panic of the real store is an answer of the real code (an error no model accepts), not a
+	// defect of the driver
+	defer func() {
+		if r := recover(); r != nil {
+			err = fmt.Errorf("the real store panicked in %s: %v", o.Op, r)
+			if o.T == nil {
+				o.T = []int{}
+			}
+			if o.Bl == nil {
+				o.Bl = []int{}
+			}
+			ev = Event{O: o, R: Res{T: []int{}, List: []Entry{}}, Dirs: []DirScore{}}
+		}
+	}()
+	return exec(st, o)
+}
+
+func exec(st storedefs.Store, o Op) (Event, error) {
 	if o.T == nil {
 		o.T = []int{}
 	}
